@@ -110,9 +110,32 @@ def run(ctx, R, tier):
             for bb, si, st in sb.stmts():
                 if st['k'] == 'assign' and st['rv']['k'] == 'bin' and st['rv']['op'] == 'Add':
                     d = describe_rv(sb, st['rv'], depth=14, at=bb)
-                    if d.startswith('Add(%s, ' % M):
+                    from ..paths import parse_term
+                    n0, a0 = parse_term(d)
+                    if n0 == 'Add' and a0 and M in a0:
                         gains.append(d)
-        okg = len(gains) == 2 and all(g.startswith('Add(%s, Mul(Sub(1.0, %s), Div(Add(glam::Vec3::dot(' % (M, M)) and g.endswith(', 1.0), 2.0)))') for g in gains)
+
+        def gain_shape(g):
+            # min + (1 - min) * ((dot + 1) / 2), operands of + and * in any order
+            from ..paths import parse_term as pt
+            n0, a0 = pt(g)
+            if n0 != 'Add' or not a0 or len(a0) != 2 or M not in a0:
+                return False
+            x = [v for v in a0 if v != M]
+            if len(x) != 1:
+                return False
+            n1, a1 = pt(x[0])
+            if n1 != 'Mul' or not a1 or len(a1) != 2 or ('Sub(1.0, %s)' % M) not in a1:
+                return False
+            y = [v for v in a1 if v != 'Sub(1.0, %s)' % M]
+            if len(y) != 1:
+                return False
+            n2, a2 = pt(y[0])
+            if n2 != 'Div' or not a2 or len(a2) != 2 or a2[1] != '2.0':
+                return False
+            n3, a3 = pt(a2[0])
+            return n3 == 'Add' and a3 is not None and len(a3) == 2 and '1.0' in a3 and any(v.startswith('glam::Vec3::dot(') for v in a3)
+        okg = len(gains) == 2 and all(gain_shape(g) for g in gains)
         if okg:
             # ... and each channel gets the gain of its own ear
             side = {}
@@ -160,7 +183,7 @@ def run(ctx, R, tier):
                 t = sb.blocks[x]['term']
                 if t['k'] == 'switch' and sb.dominates(x, mono[0]) and x != mono[0]:
                     d = describe(sb, t['op'], depth=6, at=x)
-                    if d.startswith(('Ne(', 'Eq(')) and 'spatialization_strength' in d and d.rstrip(')').endswith('0.0'):
+                    if d.startswith(('Ne(', 'Eq(')) and 'spatialization_strength' in d and (d.rstrip(')').endswith('0.0') or d.startswith(('Ne(0.0, ', 'Eq(0.0, '))):
                         nz = t['otherwise'] if d.startswith('Ne(') else dict(t['targets']).get('0')
                         z = dict(t['targets']).get('0') if d.startswith('Ne(') else t['otherwise']
                         # folded to mono (and panned) exactly on the non-zero side; the zero side returns the stereo signal
